@@ -584,7 +584,8 @@ class Interp(Engine):
             except PyRaise as pr:
                 handled = False
                 for h in s.handlers:
-                    if self.exc_matches(pr.exc, h.type):
+                    m_ = self.exc_matches(pr.exc, h.type)
+                    if (m_ if isinstance(m_, bool) else self.branch(m_)):
                         handled = True
                         if h.name:
                             self.frame.env[h.name] = pr.exc
@@ -611,9 +612,15 @@ class Interp(Engine):
             return True
         t = self.eval(tnode)
         ts = t if isinstance(t, tuple) else (t,)
+        conds = []
         for c in ts:
-            if self.exc_isinstance(exc, c):
+            r = self.exc_isinstance(exc, c)
+            if r is True:
                 return True
+            if r is not False:
+                conds.append(r)
+        if conds:
+            return z3.Or(*conds)
         return False
 
     def exc_isinstance(self, exc, c):
@@ -630,7 +637,17 @@ class Interp(Engine):
         if isinstance(c, ClassV):
             return False
         if isinstance(c, type):
-            return issubclass(exc.cls, c)
+            if issubclass(exc.cls, c):
+                return True
+            # OSError(errno, msg) is instantiated by CPython as the errno-specific subclass (PEP 3151):
+            # an OSError carrying a symbolic errno matches `except TimeoutError` exactly when errno is ETIMEDOUT ...
+            if exc.cls is OSError and exc.attrs.get("errno_sym") and issubclass(c, OSError) and len(exc.args) >= 2:
+                codes = B.oserror_codes(c)
+                if not codes:
+                    return False
+                e = zint(exc.args[0])
+                return z3.Or(*[e == k for k in codes])
+            return False
         raise Unsupported("except clause type %r" % (c,))
 
     # ---------------------------------------------------------------- loops
@@ -1009,6 +1026,7 @@ class Interp(Engine):
 
     # ---------------------------------------------------------------- modular call
     def call_contract(self, c, fv, env):
+        self.called.add((fv.rel, fv.qual))
         fr = Frame(fv.rel, fv.qual.split(".")[0] if "." in fv.qual else None, fv.qual, env)
         fr.loops = None
         self.frames.append(fr)
